@@ -403,6 +403,55 @@ tspec_str(const struct tspec *s)
     return buf;
 }
 
+/* ---- block-write verdict of the flat model ----------------------------------------- */
+struct verdict {
+    /* first address per failure class, -1 if the class does not apply */
+    long unmapped, readonly, invalid, range;
+    uint32_t overlapped; /* mask of registers the block overlaps */
+};
+
+static void
+flat_write_verdict(const struct tab *t, uint32_t addr, uint32_t n, const RegisterAtom *buf, struct verdict *v)
+{
+    const struct tspec *s = &t->s;
+    v->unmapped = v->readonly = v->invalid = v->range = -1;
+    v->overlapped = 0;
+    for (uint32_t a = addr; a < addr + n; ++a) {
+        const int ai = flat_area_of(s, a);
+        if (ai < 0) {
+            if (v->unmapped < 0)
+                v->unmapped = a;
+        } else if (!flat_writable(&s->a[ai])) {
+            if (v->readonly < 0)
+                v->readonly = a;
+        }
+    }
+    for (int r = 0; r < s->nr; ++r) {
+        const struct rspec *rs = &s->r[r];
+        const uint32_t rw = ref_words(rs->type);
+        if (n == 0 || rs->addr + rw <= addr || addr + n <= rs->addr)
+            continue;
+        v->overlapped |= 1u << r;
+        unsigned char img[8];
+        flat_reg_image(t, r, img);
+        for (uint32_t w = 0; w < rw; ++w) {
+            const uint32_t a = rs->addr + w;
+            if (a >= addr && a < addr + n)
+                memcpy(img + 2 * w, &buf[a - addr], 2);
+        }
+        const uint64_t bits = ref_unimage(rs->type, img, s->be);
+        const long first = (long)(addr > rs->addr ? addr : rs->addr);
+        if (!ref_storable(rs->type, bits)) {
+            if (v->invalid < 0)
+                v->invalid = first;
+        } else if (!ref_constraint(rs, ref_from_bits(rs->type, bits))) {
+            if (v->range < 0)
+                v->range = first;
+        }
+    }
+}
+
+
 /* typed constructors for RegisterValueU from small integers / doubles */
 static inline RegisterValueU
 vu_int(RegisterType t, int64_t x)
